@@ -622,7 +622,7 @@ class Prop(fw.PropBase):
         q = case['history'][j]['queries'][k]
         mode = ('use_cache' if cf['cache'] else '') + ('+lazyLoad' if cf['lazy'] else '') or 'eager'
         where = 'absent-contig' if q[1] not in case['vcf']['contigs'] else 'site'
-        if (where == 'site' and cf['cache'] and cacheable(q[1]) and
+        if (where == 'site' and cf['cache'] and cf['lazy'] and cacheable(q[1]) and
                 any(r['cfg']['cache'] and not same_sem(r['cfg'], cf) and any(x[1] == q[1] for x in r['queries'])
                     for r in case['history'][:j])):
             where += ':after-a-cache-run-with-other-settings-on-this-contig'
